@@ -31,10 +31,12 @@ PROPS = {
         "assumptions": ["which interleavings tokio actually produces is not controlled (partial): schedule-dependent runs are judged by the relation, not by equality", "quick-junit XML serialisation and clap are trusted"],
     },
     "C17": {
-        "runs": [{"profile": "cli17", "kind": "cli", "n_quick": 25, "n_thorough": 500, "nontrivial": "any"}],
+        "runs": [{"profile": "cli17", "kind": "cli", "n_quick": 25, "n_thorough": 500, "nontrivial": "any"},
+                 {"profile": "c17lib", "n_quick": 400, "n_thorough": 20000, "nontrivial": "any"}],
         "observable": "engine-side event log (one O_APPEND log written by every fake-engine process: connect / sql / eof with the database the process was started for, CREATE / DROP DATABASE on the management session), replayed through the Lean monitor `accepts`: create-before-use, unique names, exclusive use (every SQL line carries its file), $__DATABASE__ expansion, at most `jobs` databases with open sessions, close-before-drop, dropped exactly once unless kept / refused, every session closed",
         "explanation": "sets of 1..10 files (pass / fail / die / parse error, several named connections per file, `dbname $__DATABASE__` probes) x -j 1..8 x keep-on-failure on/off x latency 0/3/10/30 ms to vary interleavings",
-        "assumptions": ["the interleavings explored are those the real scheduler produces under the chosen latencies (partial); the theorem covers all schedules of the driver model"],
+        "assumptions": ["the interleavings explored are those the real scheduler produces under the chosen latencies (partial); the theorem covers all schedules of the driver model",
+                        "library counterpart: Runner::run_parallel_async in-process against a logging AsyncDB whose every request yields to the executor a seeded pseudo-random number of times (deterministic schedules, 1..12 files incl. names that differ only in replaced characters, jobs 1..8 in turn); its log is renamed injectively into the monitor's naming scheme (database -> file by first use) and judged by the same monitor; the database name of the k-th file is compared with the model's libDbName"],
     },
     "C19": {
         "runs": [{"profile": "cli19", "kind": "cli", "n_quick": 5, "n_thorough": 60, "nontrivial": "any"}],
